@@ -50,6 +50,14 @@ CLAIMS = {
          "reaching tree_decomposition equals the requested one; sum-product unchanged and equal to the independent evaluator. Sampled.",
          "Trusted: own inliner/isomorphism in vf/props/c05.py + vf/iso.py, vf/oracle_fgg.py, harness-side wrapper recording tree_decomposition's method.",
          "DESIGN.md section 5, C05"),
+ 'C07': ("Hypothesis-generated typed einsum equations over patterned operands vs. brute-force semiring loop on independently interpreted dense twins (differential oracle); arg-max pointers validated by plugging back",
+         "Generated signatures (<=4 indices, <=3 operands, repeated indices, empty operand list, zero-size axes) with operands drawn as typed "
+         "patterns (products, sums, shared axes, stride-0 views, arbitrary defaults) are evaluated by einsum/mv/mm in all four semirings, with and "
+         "without requires_grad (selecting the equation-reduction path), and compared with a numpy brute-force loop using 0*inf=0; for "
+         "log_viterbi_einsum_forward the pointer tensor must have one entry per summed-out index and attain the maximum in every finite cell. Sampled.",
+         "Trusted: vf/gen_pattern.py dense interpreter (written from the module docstring, self-checked on its two examples), numpy, Hypothesis. "
+         "Operands of one equation share index types (documented precondition); +inf not generated for the arg-max variant.",
+         "DESIGN.md section 5, C07"),
 }
 
 NOT_YET = {}   # id -> reason (filled while the framework is being built)
